@@ -63,7 +63,7 @@ func captureScript(g *Gen, id int, steps int) []byte {
 	saved := g.x
 	g.x = NewExec(bw, g.stats)
 	g.line("BEGIN id=%d", id)
-	f := flowScn(g, flowMix{})
+	f := flowScn(g, flowMix{oddAccount: true})
 	f.Init()
 	for i := 0; i < steps; i++ {
 		switch g.r.Intn(7) {
